@@ -299,7 +299,7 @@ fn op(id: CodecId) -> BoxedStrategy<Op> {
 }
 
 fn strat(id: CodecId, max: usize, maxops: usize) -> BoxedStrategy<Case> {
-    (gen::owned_spec(id, max), vec(op(id), 0..=maxops)).prop_map(move |(start, ops)| Case { codec: id, start, ops }).boxed()
+    (gen::owned_spec_raw(id, max), vec(op(id), 0..=maxops)).prop_map(move |(start, ops)| Case { codec: id, start, ops }).boxed()
 }
 
 /// the operation grid of the bounded-exhaustive part: positions {0, mid, len}, three argument windows
